@@ -203,16 +203,27 @@ def run(ctx, env):
         b = prog.body(d + "::parse_be")
         if not ctx.anchor("R7.3", d + "::parse_be", b):
             continue
-        fp = [(blk, c) for blk, t, c in b.calls() if c is not None and c.nsyn.startswith("std::ops::Fn") or (c is not None and "FieldParser" in c.path)]
-        guards = guards_by_call(an, b, set(["std::vec::Vec::is_empty", "core::slice::<impl [T]>::is_empty"]))
+        # the rejection may sit in the decoder itself or in a private helper on the way to the records parser
+        # (`FieldParser::parse_cached(i, Option<&T>)`): every body on that way is looked at
+        chain = [b] + [cb2 for p2, cb2 in prog.bodies.items() if p2.startswith(d + "::parse_be::{closure")]
+        seen_h = set()
+        for hb0 in list(chain):
+            for _, _, c2 in hb0.calls():
+                if c2 is not None and c2.local and c2.kind == "Item" and c2.path in prog.bodies and c2.path not in seen_h \
+                        and not prog.bodies[c2.path].j.get("pub") and "nom_derive::Parse" not in c2.path:
+                    seen_h.add(c2.path)
+                    chain.append(prog.bodies[c2.path])
         ok = False
         why = "no `fields.is_empty()` rejection before decoding"
-        for (cb, ce, sw, tt, ff) in guards:
-            # the decode call (closure call to FieldParser::parse) must be on the false side
-            dom = [blk for blk, c in fp if b.edge_dominates((sw, ff), blk)]
-            if dom:
-                ok = True
-                why = "decoding at %s dominated by !get_fields().is_empty() (%s)" % ([b.line(x) for x in dom][:2], b.line(cb))
+        for hb in chain:
+            fp = [(blk, c) for blk, t, c in hb.calls() if c is not None and (c.nsyn.startswith("std::ops::Fn") or "FieldParser" in c.path)]
+            guards = guards_by_call(an, hb, set(["std::vec::Vec::is_empty", "core::slice::<impl [T]>::is_empty"]))
+            for (cb, ce, sw, tt, ff) in guards:
+                # the decode call (closure call to / call of FieldParser::parse) must be on the false side
+                dom = [blk for blk, c in fp if hb.edge_dominates((sw, ff), blk)]
+                if dom:
+                    ok = True
+                    why = "decoding at %s dominated by !fields.is_empty() (%s)" % ([hb.line(x) for x in dom][:2], hb.line(cb))
         ctx.ob("R7.3", d + "::parse_be", "empty-template-rejected", ok, why, site=site(b.span))
 
     # R7.4 (role-based: wherever v9::FlowSet::parse is called on the parse path, its error must be propagated with `?`)
